@@ -42,7 +42,7 @@ def build_tables():
     misc = ["addl %ecx, %eax", "subl $1, %ebx", "xorl %edx, %edx", "incl %ecx", "negl %eax", "notl %ebx", "leal 4(%eax,%ecx,2), %edx", "xchgl %eax, %ebx",
             "movl $0x12345678, %eax", "movl $3, %ecx", "movl $0, %ecx", "movl $1, %ecx", "movl $5, %ecx", "movw $0xffff, %dx", "movb $0x7f, %al", "movb $0x80, %ah",
             "shll $4, %eax", "shrl $1, %ebx", "sarl $31, %edx", "roll $8, %eax", "andl $0xff00, %ebx", "orl %eax, %edx", "adcl %ebx, %eax", "sbbl $0, %edx",
-            "cmpl %eax, %ebx", "testl %ecx, %ecx", "movzbl %al, %ebx", "movsbl %ah, %ecx", "movzwl %dx, %eax", "imull %ecx, %eax", "cltd", "cld", "std",
+            "cmpl %eax, %ebx", "testl %ecx, %ecx", "sete %al", "sete %ah", "setne %bl", "setb %ch", "setl %dl", "setge %bh", "cmpl %ecx, %ebx", "movzbl %al, %ebx", "movsbl %ah, %ecx", "movzwl %dx, %eax", "imull %ecx, %eax", "cltd", "cld", "std",
             "pushl %eax", "pushl %ebx", "popl %ecx", "popl %edx", "pushl $0x55", "pushw %ax", "popw %bx",
             "addl %eax, 4(%esi)", "subl 4(%esi), %ebx", "addw %cx, 2(%esi)", "orb %dl, 1(%esi)", "xchgl %eax, 4(%esi)", "incl 0x1004", "addb %al, 0x1001", "xorl 0x1000, %ecx",
             "movsb", "movsl", "stosb", "stosl", "stosw", "lodsb", "lodsl", "scasb", "cmpsb",
